@@ -384,7 +384,15 @@ func (c *Chain) sid(name string, ts uint64) *sidInfo {
 		c.sids = map[string]*sidInfo{}
 	}
 	if s, ok := c.sids[name]; ok {
-		return s
+		if c.App == nil || s.T0 == ts || s.T0 == 0 {
+			return s
+		}
+		if _, exists := c.App.DidKeeper.GetSidDocumentVersion(c.Ctx, s.DocId); exists {
+			return s
+		}
+		// a DID that is not on chain has no id yet: what stands in for it is a function of the asking moment alone, never of
+		// what this process happened to execute or simulate before (replicas must build the same transaction bytes)
+		delete(c.sids, name)
 	}
 	keys := sidDocKeys(name)
 	doc, _ := didkeeper.CalculateDocId(keys, ts)
@@ -444,14 +452,15 @@ func isSidDoc(n string) bool {
 // sidDocId: the on-chain id of the sid document with the symbolic name doc ("" if it is not on chain). Found by its
 // key, so a process that did not create the document finds it too.
 func (c *Chain) sidDocId(doc string) string {
-	if v, ok := c.concr[doc]; ok {
-		return strings.TrimPrefix(v, "did:sid:")
-	}
+	// the chain first (every process finds the same), the process's own memory only for what is not on chain
 	want := sidDocKeys(doc)[0].Value
 	for _, d := range c.App.DidKeeper.GetAllSidDocument(c.Ctx) {
 		if len(d.Keys) > 0 && d.Keys[0].Value == want {
 			return d.VersionId
 		}
+	}
+	if sidOfDoc(doc) == doc {
+		return c.sid(doc, uint64(c.blockTime())).DocId
 	}
 	return ""
 }
